@@ -20,6 +20,7 @@ pub struct Out {
     pub samples: Vec<String>,
     pub rule: String,
     pub exhaustive_note: String,
+    pub exhaustive: bool,
 }
 
 impl Out {
@@ -33,6 +34,7 @@ impl Out {
             samples: vec![],
             rule: String::new(),
             exhaustive_note: String::new(),
+            exhaustive: false,
         }
     }
     /// Adds a case, runs it on the implementation and returns its index.
@@ -128,12 +130,13 @@ fn main() {
             let samples: Vec<String> = out.samples.iter().map(|s| json_str(s)).collect();
             writeln!(
                 f,
-                "{{\"evaluations\": {}, \"distinct_nontrivial\": {}, \"oracle_failures\": {}, \"rule\": {}, \"exhaustive_note\": {}, \"distribution\": {{{}}}, \"samples\": [{}]}}",
+                "{{\"evaluations\": {}, \"distinct_nontrivial\": {}, \"oracle_failures\": {}, \"rule\": {}, \"exhaustive_note\": {}, \"exhaustive\": {}, \"distribution\": {{{}}}, \"samples\": [{}]}}",
                 out.cases.len(),
                 out.nontrivial.len(),
                 out.oracle_fail.len(),
                 json_str(&out.rule),
                 json_str(&out.exhaustive_note),
+                out.exhaustive,
                 stats.join(", "),
                 samples.join(", ")
             )
